@@ -2509,8 +2509,14 @@ class CompressedCertificate(Certificate):
 
         try:
             if self.compression_algo == CertificateCompressionAlgorithm.zlib:
-                decompressed_msg = zlib.decompress(
-                    compressed_msg, 15, expected_length)
+                # limit the size of output, one byte over the expected length
+                # is enough to notice that the declared length is wrong
+                decompressor = zlib.decompressobj(15)
+                decompressed_msg = decompressor.decompress(
+                    compressed_msg, expected_length + 1)
+                if len(decompressed_msg) <= expected_length and \
+                        not decompressor.eof:
+                    raise ValueError("Truncated compressed data")
             elif self.compression_algo == \
                     CertificateCompressionAlgorithm.brotli:
                 if compression_algo_impls["brotli_accepts_limit"]:
